@@ -1,0 +1,112 @@
+//go:build verif
+
+// Contracts for the deductive verification machinery kept in /verif (govc).
+// Comment-only file, compiled only under the build tag "verif".
+package config
+
+// wf(c): every pointer-typed parameter of a Config is set. NewRootConfig establishes it for
+// the top level (its zeroing loop) and mergeConfigs propagates it downwards.
+//@ define wf(c *Config) bool = c != nil && c.All != nil && c.BuildTags != nil && c.ConfigFile != nil && c.Dir != nil
+//@    && c.ExcludeInterfaceRegex != nil && c.FileName != nil && c.ForceFileWrite != nil && c.Formatter != nil
+//@    && c.IncludeInterfaceRegex != nil && c.LogLevel != nil && c.StructName != nil && c.PkgName != nil && c.Recursive != nil
+//@    && c.RequireTemplateSchemaExists != nil && c.Template != nil && c.TemplateSchema != nil
+
+// ---- C07: which interfaces are selected -------------------------------------------
+
+// The postcondition is the property statement verbatim: generate iff `all`, or listed, or
+// (include set and matching and not (exclude set and matching)); the regexes are ignored
+// when `all` is set and exclude is ignored without include.
+//@ func (PackageConfig).ShouldGenerateInterface props=C07
+//@   requires c.Config != nil && c.Config.All != nil && c.Config.IncludeInterfaceRegex != nil && c.Config.ExcludeInterfaceRegex != nil
+//@   let all = *c.Config.All
+//@   let inc = *c.Config.IncludeInterfaceRegex
+//@   let exc = *c.Config.ExcludeInterfaceRegex
+//@   let listed = interfaceName in c.Interfaces
+//@   ensures#iff err == nil ==> (result == (all || listed || (inc != "" && regexp.MatchString(inc, interfaceName) && !(exc != "" && regexp.MatchString(exc, interfaceName)))))
+//@   ensures#err (err != nil) <==> (!all && !listed && inc != "" && (second(regexp.MatchString(inc, interfaceName)) != nil
+//@          || (regexp.MatchString(inc, interfaceName) && exc != "" && second(regexp.MatchString(exc, interfaceName)) != nil)))
+//@   ensures#errfalse err != nil ==> result == false
+//@   assigns nothing
+
+// "exactly the sub-packages that ... do not match an exclusion regex".
+//@ func (*Config).ShouldExcludeSubpkg props=C07
+//@   ensures result == (exists i int :: 0 <= i && i < len(c.ExcludeSubpkgRegex) && regexp.MatchString(c.ExcludeSubpkgRegex[i], pkgPath))
+//@   loop 0: invariant forall j int :: 0 <= j && j < $i ==> !regexp.MatchString(c.ExcludeSubpkgRegex[j], pkgPath)
+//@   panics_if exists i int :: 0 <= i && i < len(c.ExcludeSubpkgRegex) && second(regexp.MatchString(c.ExcludeSubpkgRegex[i], pkgPath)) != nil
+//@   assigns nothing
+
+// "exactly the sub-packages that contain Go files": the filter applied to the loader's result.
+//@ closure (*RootConfig).subPackages#0 props=C07
+//@   ensures#only forall i int :: 0 <= i && i < len(result) ==> (exists j int :: 0 <= j && j < len(pkgs) && len(pkgs[j].GoFiles) != 0 && result[i] == pkgs[j].PkgPath)
+//@   ensures#all forall j int :: 0 <= j && j < len(pkgs) && len(pkgs[j].GoFiles) != 0 ==> (exists i int :: 0 <= i && i < len(result) && result[i] == pkgs[j].PkgPath)
+//@   loop 0: invariant forall i int :: 0 <= i && i < len(paths) ==> (exists j int :: 0 <= j && j < $i && len(pkgs[j].GoFiles) != 0 && paths[i] == pkgs[j].PkgPath)
+//@   loop 0: invariant forall j int :: 0 <= j && j < $i && len(pkgs[j].GoFiles) != 0 ==> (exists i int :: 0 <= i && i < len(paths) && paths[i] == pkgs[j].PkgPath)
+//@   assigns nothing
+
+// "for each selected interface exactly one mock is produced per entry of its configs list (one if there is none)".
+//@ func (*InterfaceConfig).Initialize props=C07,C08
+//@   requires c.Config != nil && (forall i int :: 0 <= i && i < len(c.Configs) ==> c.Configs[i] != nil)
+//@   ensures#one old(len(c.Configs)) == 0 ==> len(c.Configs) == 1 && c.Configs[0] == c.Config
+//@   ensures#same old(len(c.Configs)) > 0 ==> len(c.Configs) == old(len(c.Configs)) && (forall i int :: 0 <= i && i < len(c.Configs) ==> c.Configs[i] == old(c.Configs[i]))
+//@   ensures#nil err == nil
+
+//@ func NewInterfaceConfig props=C07,C08
+//@   ensures result != nil && result.Config != nil && len(result.Configs) == 0 && fresh(result) && fresh(result.Config)
+//@   assigns fresh
+
+//@ func NewPackageConfig props=C07,C08
+//@   ensures result != nil && result.Config != nil && result.Interfaces != nil && fresh(result) && fresh(result.Config) && fresh(result.Interfaces)
+//@   ensures forall k string :: !(k in result.Interfaces)
+//@   assigns fresh
+
+//@ func (*RootConfig).GetPackageConfig props=C07,C09
+//@   ensures (pkgPath in c.Packages) ==> err == nil && result == c.Packages[pkgPath]
+//@   ensures !(pkgPath in c.Packages) ==> err != nil && result == nil
+//@   assigns nothing
+
+// ---- C13: replace-type lookup -----------------------------------------------------
+
+//@ func (*Config).GetReplacement props=C13
+//@   ensures (pkgPath in c.ReplaceType) && (typeName in c.ReplaceType[pkgPath]) ==> result == c.ReplaceType[pkgPath][typeName]
+//@   ensures !((pkgPath in c.ReplaceType) && (typeName in c.ReplaceType[pkgPath])) ==> result == nil
+//@   assigns nothing
+
+// ---- output path ---------------------------------------------------------------------
+
+//@ func (*Config).FilePath props=C10,C09
+//@   requires c.Dir != nil && c.FileName != nil
+//@   ensures result != nil
+//@   assigns fresh
+
+// ---- C08: merging ----------------------------------------------------------------------
+
+// template-data values are trees (what a YAML decoder produces): a map stored inside another
+// map is one level deeper, hence a different object than its container, and never nil.
+// depth is a ghost function; TreeInv is a precondition, re-established on exit.
+//@ spec depth(m map[string]any) int
+//@ define TreeInv() bool = forall m map[string]any, k string :: (k in m) && dyn(m[k]) == tagof(map[string]any)
+//@       ==> unbox(map[string]any, m[k]) != nil && depth(unbox(map[string]any, m[k])) == depth(m) + 1
+
+// Key-by-key merge with the more specific level (dest) winning; nested maps merged recursively.
+// Frame: only dest and maps below dest's level change ("never leaks into siblings" at this level).
+//@ func mergeStringMaps props=C08,C06
+//@   requires dest != nil && TreeInv() && depth(src) == depth(dest)
+//@   ensures#tree TreeInv()
+//@   ensures#domain forall k string :: (k in dest) <==> (old(k in dest) || (k in src))
+//@   ensures#keep forall k string :: old(k in dest) ==> dest[k] == old(dest[k])
+//@   ensures#take forall k string :: (k in src) && !old(k in dest) ==> dest[k] == old(src[k])
+//@   ensures#frame forall m map[string]any, k string :: m != dest && depth(m) <= depth(dest) ==> ((k in m) <==> old(k in m)) && m[k] == old(m[k])
+//@   loop 0: invariant TreeInv()
+//@   loop 0: invariant#domain forall k string :: (k in dest) <==> (old(k in dest) || (old(k in src) && $visited[k]))
+//@   loop 0: invariant#keep forall k string :: old(k in dest) ==> dest[k] == old(dest[k])
+//@   loop 0: invariant#take forall k string :: old(k in src) && $visited[k] && !old(k in dest) ==> dest[k] == old(src[k])
+//@   loop 0: invariant#frame forall m map[string]any, k string :: m != dest && depth(m) <= depth(dest) ==> ((k in m) <==> old(k in m)) && m[k] == old(m[k])
+//@   loop 0: invariant#self src == dest ==> (forall k string :: ((k in dest) <==> old(k in dest)) && dest[k] == old(dest[k]))
+//@   assigns maps(map[string]any)
+
+// mergeConfigs walks Config by reflection; until the reflection is resolved statically
+// (DESIGN.md 3.5) its contract is assumed, not proved, and is listed as such in the evidence.
+//@ func mergeConfigs props=C08
+//@   trusted
+//@   requires dest != nil
+//@   assigns *dest, maps(map[string]any), fresh
